@@ -924,8 +924,8 @@ def check_struct_dtype_everywhere(ctx, tag="C03.8"):
             for fld in ("body", "orelse", "finalbody"):
                 b = getattr(x, fld, None)
                 if isinstance(b, list) and b and isinstance(b[0], ast.stmt):
-                    blocks.append(b)
-        for b in blocks:
+                    blocks.append((b, x, fld))
+        for b, owner, fld in blocks:
             for i, st in enumerate(b):
                 if isinstance(st, ast.Assign) and len(st.targets) == 1 and isinstance(st.targets[0], ast.Name) and norm(st.value).endswith(".type.__name__") and "dtype" in norm(st.value):
                     n += 1
@@ -939,6 +939,16 @@ def check_struct_dtype_everywhere(ctx, tag="C03.8"):
                                    and any((isinstance(a, ast.Assign) and any(isinstance(t, ast.Name) and t.id == var for t in a.targets) and "str(" in norm(a.value))
                                            or (isinstance(a, ast.Return) and a.value is not None and "str(" in norm(a.value)) for a in ast.walk(y))
                                    and y.body and isinstance(y.body[-1], (ast.Break, ast.Return, ast.Continue)) for y in b[:i])
+                    # ... or this is the other side of the struct test itself: `if <struct>(dtype): name = str(dtype) else: name = ...type.__name__`
+                    if not ok and isinstance(owner, ast.If):
+                        def _is_struct(e):
+                            return isinstance(e, ast.Call) and m.is_call_to(fn_, e, "_array_types._dtype_is_numpy_struct_array")
+                        def _names_by_str(stmts):
+                            return any(isinstance(a, ast.Assign) and any(isinstance(t, ast.Name) and t.id == var for t in a.targets) and "str(" in norm(a.value) for a in stmts)
+                        if fld == "orelse" and _is_struct(owner.test) and _names_by_str(owner.body):
+                            ok = True
+                        elif fld == "body" and isinstance(owner.test, ast.UnaryOp) and isinstance(owner.test.op, ast.Not) and _is_struct(owner.test.operand) and _names_by_str(owner.orelse):
+                            ok = True
                     if ok:
                         ctx.ok(tag, fn_.qualname, f"`{short(st, 50)}` is followed by the structured-dtype special case")
                     else:
